@@ -579,7 +579,10 @@ Proof.
   destruct (srv_len_enough n segs srv_init tail eq_refl) as [I1 [I2 I3]];
     [cbn [sv_seen srv_init]; lia|exact Hs|cbn [sv_seen srv_init]; rewrite Hcat, lenN_app; lia|].
   cbn zeta in I1, I2, I3. cbn [sv_body sv_seen srv_init app] in I1. rewrite N.sub_0_r in I1.
-  rewrite Hcat, takeN_app, (takeN_all n body), N.sub_diag, takeN_0, app_nil_r in I1 by lia.
+  assert (Hk : takeN n (concat segs) = body).
+  { rewrite Hcat, takeN_app, (takeN_all n body) by lia. replace (n - lenN body) with 0 by lia.
+    now rewrite takeN_0, app_nil_r. }
+  rewrite Hk in I1.
   rewrite I1 in *. rewrite I2. repeat split; try reflexivity.
   rewrite <- Hps. apply view_len_whole. now rewrite Hps.
 Qed.
@@ -720,8 +723,10 @@ Proof.
     - destruct (h_status h =? sc_no_content); [reflexivity|].
       destruct (h_status h =? sc_not_modified); [reflexivity|].
       destruct (h_status h <? sc_okay); [reflexivity|discriminate]. }
-  rewrite Hf, Hcf. rewrite srv_run_from, srv_from_cons. unfold srv_step at 1. cbn [sv_done srv_init].
-  rewrite srv_done_stays by reflexivity. cbn [sv_body sv_whole srv_init app]. reflexivity.
+  rewrite Hf, Hcf. rewrite srv_run_from, srv_from_cons.
+  change (srv_step ONoBody srv_init (OSeg [])) with
+    {| sv_dec := CSize0; sv_seen := 0; sv_body := []; sv_whole := true; sv_done := true |}.
+  rewrite srv_done_stays by reflexivity. cbn [sv_body sv_whole]. reflexivity.
 Qed.
 
 (* ---------- refutations (witnesses are replayed against the running proxy: corpus/C01/known.jsonl) ---------- *)
